@@ -36,7 +36,10 @@ def Rule.plant (r : Rule) (k : Nat) : String :=
   | .mixedNested => #["O{A(ma) I(mb)} [OR] O{A(mc) I(md)} [AND] O{A(me) I(mf)}", "Cex{A(ma) I(mb)} [AND] Cex{A(mc) I(md)} [XOR] Cex{A(me) I(mf)}",
                       "O{A(ma) I(mb)} [XOR] O{A(mc) I(md)} [OR] O{A(me) I(mf)}"].getD (k % 3) ""
   | .typeMix => #["Cac{Cac{A(ta) I(tb)} [AND] Bdir{A(tc) I(td)}}", "Cex{Cex{A(ta) I(tb)} [XOR] Cac{A(tc) I(td)}}",
-                  "Bdir{Bdir{A(ta)} [OR] Bind{I(tb)}}"].getD (k % 3) ""
+                  "Bdir{Bdir{A(ta)} [OR] Bind{I(tb)}}",
+                  -- a component and its property variant are different types (either order, also as third operand)
+                  "Bdir{Bdir{A(ta) I(tb)} [AND] Bdir,p{A(tc) I(td)}}", "Bind,p{Bind,p{A(ta) I(tb)} [OR] Bind{A(tc) I(td)}}",
+                  "P{P{A(ta) I(tb)} [XOR] {P{A(tc) I(td)} [AND] P,p{A(te) I(tf)}}}"].getD (k % 6) ""
   | .twoPairs => "{M(pa) [XOR] M(pb)} {F(pc) [OR] F(pd)}"
   | .duplicate => #["F(dup) F(dup)", "M(same (a [AND] b)) M(same (a [AND] b))", "D(dd) D(dd)"].getD (k % 3) ""
   | .nonNesting => #["D{A(na) I(nb)}", "M{A(na) I(nb)}", "F{I(nb)}"].getD (k % 3) ""
